@@ -238,6 +238,13 @@ func (r *icRun) do(client int, op icOp, nextV *int) *icCall {
 	case "adv":
 		vrt.Advance(op.Arg)
 		c.OK = true
+	case "sketch-edge":
+		// white-box pre-history step: the next recorded addition completes the sketch's sample period (640 additions
+		// by the API would do the same), so the aging reset - and whatever is tied to it - happens inside the driver
+		s.policyMu.Lock()
+		s.policy.sketch.Additions = s.policy.sketch.SampleSize - 1
+		s.policyMu.Unlock()
+		c.OK = true
 	default:
 		if r.hy == nil || !r.hyIcDo(c, op) {
 			panic("icb: unknown op " + op.Kind)
